@@ -1,5 +1,6 @@
 import DmrVerif.Driver.Loop
+import DmrVerif.Driver.Rs
 
-/-! model driver for property C11 (stub: no operations registered yet) -/
+/-! model driver for property C11 -/
 
-def main : IO Unit := Dmr.Driver.runMain []
+def main : IO Unit := Dmr.Driver.runMain [Dmr.Driver.rsOp]
